@@ -2,6 +2,7 @@
 package c09
 
 import (
+	"encoding/json"
 	"fmt"
 	"sort"
 	"strings"
@@ -71,6 +72,12 @@ func families(run *vk.Run) []*family {
 		{"two vars a,b in order", `query Q($a: Style, $b: Int) { me { greeting(style: $a, times: $b) } }`, `{"a":"LOUD","b":2}`},
 		{"two vars declared b,a", `query Q($b: Style, $a: Int) { me { greeting(style: $b, times: $a) } }`, `{"b":"LOUD","a":2}`},
 		{"literal then $a", `query Q($a: Int) { me { greeting(style: LOUD, times: $a) } }`, `{"a":2}`},
+		// the SAME request text whose normalized operation differs: @skip / @include on
+		// a variable that flips, one document sent with two operation names
+		{"flag true", `query Q($s: Boolean!) { me { name nick @skip(if: $s) reviews @include(if: $s) { body } } }`, `{"s":true}`},
+		{"flag false", `query Q($s: Boolean!) { me { name nick @skip(if: $s) reviews @include(if: $s) { body } } }`, `{"s":false}`},
+		{"document, operation Long", `query Long { me { name nick reviews { body } } } query Short { me { name } }`, `{"__op":"Long"}`},
+		{"document, operation Short", `query Long { me { name nick reviews { body } } } query Short { me { name } }`, `{"__op":"Short"}`},
 	}
 	fa := &family{name: "S-abs", s: abs, u: fedlab.SAbsUniverse(abs), schema: mustSchema(abs.SDL())}
 	fa.layout = fedlab.ByType(abs, 2, func(r fedlab.FieldRef) int {
@@ -88,6 +95,11 @@ func families(run *vk.Run) []*family {
 		// with an unscoped fetch)
 		{"by twice", `{ feed { title by { name } ... on Post { by { name } } } }`, ``},
 		{"by twice, on Clip", `{ feed { by { name } ... on Clip { by { name } } } }`, ``},
+		// one subgraph operation > 140 bytes in which the same inline fragment occurs
+		// three times (what the minifier turns into fragment spreads), the abstract
+		// field first
+		{"thrice, __typename first", `{ nodes { __typename ... on Author { name latest { title } books { title } } } a: nodes { __typename ... on Author { name latest { title } books { title } } } b: nodes { __typename ... on Author { name latest { title } books { title } } } }`, ``},
+		{"thrice, id first", `{ nodes { id ... on Author { name latest { title } books { title } } ... on Book { title } } a: nodes { id ... on Author { name latest { title } books { title } } ... on Book { title } } b: nodes { id ... on Author { name latest { title } books { title } } ... on Book { title } } }`, ``},
 		{"search+feed", `{ search { __typename ... on Author { name latest { title } } ... on Book { title } } feed { title ... on Post { text by { name } } } }`, ``},
 	}
 	fr := &family{name: "S-req", s: req, u: fedlab.SReqUniverse(req), schema: mustSchema(req.SDL())}
@@ -208,15 +220,37 @@ func observeGated(lab *fedlab.Lab, q, vars string) observation {
 	return o
 }
 
+// splitOpName: the operation name of a request. A member "__op" of the
+// variables text names it (and is removed); otherwise "Q" when the document
+// has an operation of that name.
+func splitOpName(q string, vars []byte) (string, []byte) {
+	if len(vars) > 0 {
+		var m map[string]json.RawMessage
+		if json.Unmarshal(vars, &m) == nil {
+			if raw, ok := m["__op"]; ok {
+				var name string
+				json.Unmarshal(raw, &name)
+				delete(m, "__op")
+				var out []byte
+				if len(m) > 0 {
+					out, _ = json.Marshal(m)
+				}
+				return name, out
+			}
+		}
+	}
+	if strings.Contains(q, "query Q") {
+		return "Q", vars
+	}
+	return "", vars
+}
+
 func observeOn(lab *fedlab.Lab, q, vars string) observation {
 	var vj []byte
 	if vars != "" {
 		vj = []byte(vars)
 	}
-	opName := ""
-	if strings.Contains(q, "query Q") {
-		opName = "Q"
-	}
+	opName, vj := splitOpName(q, vj)
 	out, reqs, err := lab.Exec(q, opName, vj)
 	o := observation{}
 	if err != nil {
@@ -463,17 +497,14 @@ func expected(f *family, r request) observation {
 // fresh default engine must agree with it, otherwise "equal to the fresh
 // engine" would be satisfied by two equally wrong engines.
 func referenceData(f *family, r request) (string, bool) {
-	opName := ""
-	if strings.Contains(r.query, "query Q") {
-		opName = "Q"
-	}
+	opName, rv := splitOpName(r.query, []byte(r.vars))
 	doc, errs := gqlparser.LoadQuery(f.schema, r.query)
 	if errs != nil {
 		return "", false
 	}
 	vars := map[string]any{}
-	if r.vars != "" {
-		m, err := refexec.DecodeObject([]byte(r.vars))
+	if len(rv) > 0 {
+		m, err := refexec.DecodeObject(rv)
 		if err != nil {
 			return "", false
 		}
